@@ -21,6 +21,7 @@
 #include <kernel/geometry/conformal_mesh.hpp>
 #include <kernel/lafem/dense_vector.hpp>
 #include <kernel/lafem/sparse_matrix_csr.hpp>
+#include <kernel/lafem/sparse_matrix_bcsr.hpp>
 #include <kernel/space/lagrange1/element.hpp>
 #include <kernel/trafo/standard/mapping.hpp>
 
@@ -46,9 +47,11 @@ namespace
     int open_scatter[sim::MAX_TASKS];
     Recorder() { for(int& x : open_scatter) x = -1; }
 
-    void prepare(Index c) { ++prepared[{job, c}]; tasks_used.insert(sim::self()); }
+    // the recorder relies on the baton (one task runs at a time), not on locks: its own accesses are not judged
+    void prepare(Index c) { sim::NoRace nr; ++prepared[{job, c}]; tasks_used.insert(sim::self()); }
     void scatter_enter(Index c)
     {
+      sim::NoRace nr;
       sim::vc_tick();
       ScatterRec r; r.task = sim::self(); r.cell = c; r.enter = sim::vclock(); r.job = job;
       open_scatter[sim::self()] = int(scatters.size());
@@ -58,12 +61,14 @@ namespace
     }
     void scatter_leave(Index c)
     {
+      sim::NoRace nr;
       sim::vc_tick();
       scatters[size_t(open_scatter[sim::self()])].leave = sim::vclock();
       sim::ev("scatter_leave", c);
     }
     void combine_enter()
     {
+      sim::NoRace nr;
       sim::vc_tick();
       CombineRec r; r.task = sim::self(); r.enter = sim::vclock(); r.job = job;
       open_scatter[sim::self()] = int(combines.size());
@@ -72,6 +77,7 @@ namespace
     }
     void combine_leave()
     {
+      sim::NoRace nr;
       sim::vc_tick();
       combines[size_t(open_scatter[sim::self()])].leave = sim::vclock();
       sim::ev("combine_leave");
@@ -432,7 +438,7 @@ namespace
       for(int j = 0; j < njobs; ++j)
       {
         rec.job = j;
-        int kind = int(sim::cfg_weighted(K(("job" + std::to_string(j)).c_str()), {4, 2, 2, 3, 3, 2, 2, 1, 1, 1, 1, 1}));
+        int kind = int(sim::cfg_weighted(K(("job" + std::to_string(j)).c_str()), {4, 2, 2, 3, 3, 2, 2, 1, 1, 1, 1, 1, 2, 1}));
         bool fail_job = false;
         bool scat = true;
         long nsel = long(selected.size());
@@ -496,6 +502,36 @@ namespace
             da.assemble(w);
             REC = &ref_rec; Wrap<JobType> rw(rjob); ref.assemble_master(rw); REC = &rec;
             compare("Laplace matrix", m.val(), rm.val(), m.used_elements(), 1e-12);
+          }
+          break;
+        case 12: // blocked bilinear operator (vector Laplace) into a BCSR matrix: the task owns a BCSR scatter object
+        case 13: // the same with the Du:Dv operator (couples the components)
+          {
+            constexpr int bd = Mesh_::world_dim;
+            typedef LAFEM::SparseMatrixBCSR<double, Index, bd, bd> BMatrix;
+            BMatrix m, rm;
+            Assembly::SymbolicAssembler::assemble_matrix_std1(m, space);
+            rm = m.clone(LAFEM::CloneMode::Weak);
+            m.format(); rm.format();
+            if(kind == 12)
+            {
+              Assembly::Common::LaplaceOperatorBlocked<bd> op;
+              typedef Assembly::BilinearOperatorMatrixAssemblyJob1<Assembly::Common::LaplaceOperatorBlocked<bd>, BMatrix, SpaceType> JobType;
+              JobType job(op, m, space, "auto-degree:2", 1.0), rjob(op, rm, space, "auto-degree:2", 1.0);
+              Wrap<JobType> w(job);
+              da.assemble(w);
+              REC = &ref_rec; Wrap<JobType> rw(rjob); ref.assemble_master(rw); REC = &rec;
+            }
+            else
+            {
+              Assembly::Common::DuDvOperatorBlocked<bd> op;
+              typedef Assembly::BilinearOperatorMatrixAssemblyJob1<Assembly::Common::DuDvOperatorBlocked<bd>, BMatrix, SpaceType> JobType;
+              JobType job(op, m, space, "auto-degree:2", 1.0), rjob(op, rm, space, "auto-degree:2", 1.0);
+              Wrap<JobType> w(job);
+              da.assemble(w);
+              REC = &ref_rec; Wrap<JobType> rw(rjob); ref.assemble_master(rw); REC = &rec;
+            }
+            compare("blocked operator matrix", m.template val<LAFEM::Perspective::pod>(), rm.template val<LAFEM::Perspective::pod>(), m.template used_elements<LAFEM::Perspective::pod>(), 1e-12);
           }
           break;
         case 5: // real function integral (no scatter, combine under the mutex)
